@@ -3,7 +3,7 @@
    __handle_scan_error and main.py::main / __scan_files_if_no_errors.
    No proofs here (the model must still run when a proof breaks). *)
 From Coq Require Import List NArith Bool ZArith.
-Require Import PV.Gen.ReturnCodes PV.Gen.FinalCategory.
+Require Import PV.Base.Str PV.Gen.ReturnCodes PV.Gen.FinalCategory.
 Import ListNotations.
 
 Inductive mode : Set := Scan | Fix.
@@ -136,12 +136,6 @@ Definition event_eqb (a b : event) : bool :=
   | EFailures f n, EFailures g k => N.eqb f g && N.eqb n k
   | EFixed f, EFixed g | EShortError f, EShortError g | ELongError f, ELongError g => N.eqb f g
   | EUnexpected, EUnexpected | EConfigError, EConfigError => true
-  | _, _ => false
-  end.
-Fixpoint list_eqb {A} (e : A -> A -> bool) (x y : list A) : bool :=
-  match x, y with
-  | [], [] => true
-  | a :: x', b :: y' => e a b && list_eqb e x' y'
   | _, _ => false
   end.
 Definition optZ_eqb (a b : option Z) : bool :=
